@@ -483,6 +483,11 @@ def run(P, R, tier):
     holds.soft_hold_typestate(P, R, 'C05.GRD.4')
     # "OK from a named service" is read from the bit of that service's slot
     c11.ok_query(P, R, 'C05.GRD.5')
+    c11.ok_recorded(P, Remap(R, {'C11.MPT.2': 'C05.GRD.6'}))
+    # a client's new credentials (and their +x prefix) are parsed as such once the challenge has been answered
+    from . import c06 as _c06
+    xq6, b6 = _c06.builder(P)
+    _c06.more_answered_once(P, R, xq6, 'C05.MPT.3')
     # relayed texts end where the line ends: CR LF is one terminator
     c08.line_splitting(P, R, 'C05.TAB.4')
     # the account a class rule sees is this client's stamp, not a copy kept from an earlier client
